@@ -133,7 +133,7 @@ def run(rep, wd, tier, seed):
                         tid += 1
     if tier == 'thorough':
         r = drv.rng(seed, 'c10-big')
-        for _ in range(400):
+        for _ in range(2000):
             n = r.randrange(5, 41)
             cases.append((tid, n, r.randrange(1, n + 1), r.choice(FAULTS), r.choice(('latin_1', 'cp500')), bool(r.randrange(2))))
             tid += 1
